@@ -130,7 +130,8 @@ def run_text(ctx, maxlen, head):
     tree = boolang.parse(toks) if toks else None
     want = None
     if not toks:
-        want = None             # only whitespace: statement is silent
+        # only whitespace: not a sentence (only '', [] and @ always allow)
+        want = False
         status = 'blank'
     elif tree is None:
         want = False
@@ -191,6 +192,8 @@ VALUES = [
     ('l_emptylist_true', [[], True]),
     ('date', datetime.date(2020, 1, 2)),
     ('nested3', [[['role:r1']]]),
+    ('ws_space', ' '), ('ws_tab', '\t'), ('ws_mixed', ' \n\t '),
+    ('ws_nbsp', '\u00a0'), ('ws_in_list', [[' ']]),
     ('list_map_at', [{'@': 1}]), ('list_map_role', [{'role:r1': 1}]),
     ('list_map_both', ['!', {'role:r2': None, '@': None}]),
     ('ll_map', [[{'@': 1}]]), ('list_set', [{'@'}]),
